@@ -52,6 +52,9 @@ type Step struct {
 	NilKey bool     `json:"nilkey,omitempty"`
 	Obj    string   `json:"obj,omitempty"` // long | twin | sender | ref
 	Repeat int      `json:"repeat,omitempty"`
+	// Retry: if the protect call fails because an injected random-source failure fired, the
+	// caller retries ONCE on the SAME message object with a healthy source (as a sender would).
+	Retry bool `json:"retry,omitempty"`
 
 	// deliver
 	Dgram int     `json:"dgram,omitempty"`
